@@ -767,15 +767,17 @@ pub fn call_genu64<O: Gen<u64> + ?Sized>(rv: &mut Recv<O>, mi: usize, a: &mut A)
     }
 }
 
-pub const ATTRS: [Meth; 6] = [m("at_first"), m("at_last"), m("at_c"), m("last"), Meth { name: "at_vonly", logged_as: "at_first" }, Meth { name: "at_generic", logged_as: "at_first" }];
+pub const ATTRS: [Meth; 8] = [m("at_num"), m("at_num_mut"), m("at_first"), m("at_last"), m("at_c"), m("last"), Meth { name: "at_vonly", logged_as: "at_first" }, Meth { name: "at_generic", logged_as: "at_first" }];
 pub fn call_attrs<O: Attrs + ?Sized>(rv: &mut Recv<O>, mi: usize, a: &mut A) -> Ret {
     match mi {
-        0 => Ret::U(rv.r().at_first(a.u(0))),
-        1 => Ret::U(need_mut!(rv).at_last(a.u(0))),
-        2 => Ret::U(rv.r().at_c() as u64),
-        3 => Ret::U(need_mut!(rv).last(a.u(0))),
-        4 => Ret::U(rv.r().at_vonly(a.u(0))),
-        5 => Ret::U(rv.r().at_generic(a.u(0))),
+        0 => Ret::U(rv.r().at_num().into()),
+        1 => Ret::U(need_mut!(rv).at_num_mut(a.u(0) as u32).into()),
+        2 => Ret::U(rv.r().at_first(a.u(0))),
+        3 => Ret::U(need_mut!(rv).at_last(a.u(0))),
+        4 => Ret::U(rv.r().at_c() as u64),
+        5 => Ret::U(need_mut!(rv).last(a.u(0))),
+        6 => Ret::U(rv.r().at_vonly(a.u(0))),
+        7 => Ret::U(rv.r().at_generic(a.u(0))),
         _ => Ret::NoSuchMethod,
     }
 }
